@@ -6,4 +6,4 @@ Require Import ExcerptModel ExcerptSpec Model Spec Entry SpanSpec Run Visit Trav
 Extraction "../ocaml/model.ml"
   lc_map line_col extract_text bytes_window error_line_col
   spec_line spec_col linecol_ok excerpt_ok
-  always partial exec fresh peg parse_model spans_ordered run_script visit_loop dfs_list traverse_loop ev tr chainf py_eq loop pratt.
+  always partial exec fresh peg parse_model spans_ordered run_script visit_loop dfs_list visit_loop2 dfs2_list traverse_loop ev tr chainf py_eq loop pratt.
